@@ -30,6 +30,7 @@ type Step struct {
 	DPPost   map[RuleKey]int
 	UP       uint64 // header SEID used (mod/del/urep)
 	Injected []report.USAReport
+	Retrans  int // txto: byte-identical copies of earlier Session Report Requests that arrived (retransmissions)
 	Err      string
 	Drops    int
 }
@@ -165,10 +166,16 @@ func (rn *Runner) Run(h *History, faults map[int]string) *Trace {
 		}
 	}
 	repSeen := make([]int, len(smfs))
+	repBytes := map[string]bool{}
 	collectReports := func(st *Step) {
 		for si, s := range smfs {
 			rs := s.ReportsSnapshot()
 			for _, d := range rs[repSeen[si]:] {
+				if st.Op.K == "txto" && repBytes[string(d.B)] {
+					st.Retrans++ // a retransmission: the same request again, not a new report
+					continue
+				}
+				repBytes[string(d.B)] = true
 				st.Reports = append(st.Reports, d)
 				st.RepAt = append(st.RepAt, si)
 			}
@@ -275,6 +282,21 @@ func (rn *Runner) Run(h *History, faults map[int]string) *Trace {
 				if err := env.Barrier(); err != nil {
 					st.Err = "barrier: " + err.Error()
 				}
+			}
+		case "txto":
+			// the retransmission timers of all outstanding Session Report Requests run out: every retry, then abandoned
+			answer = "ignore"
+			st.Sent = true
+			for _, t := range env.Srv.VerifSnapshot().Tx {
+				for k := 0; k <= int(rn.MaxRetrans) && st.Err == ""; k++ {
+					env.Srv.NotifyTransTimeout(pfcp.TX, t.ID)
+					if err := env.Barrier(); err != nil {
+						st.Err = "barrier: " + err.Error()
+					}
+				}
+			}
+			for _, s := range smfs {
+				s.Pump()
 			}
 		case "urep":
 			answer = op.Answer
